@@ -34,7 +34,7 @@ var templates = []func(r *rand.Rand) Tmpl{
 	tPipeline, tWorkerPool, tSelectPrivate, tMutexCounter, tProducerConsumer, tFanInSlots, tClosureLoop,
 	tGoArgCopy, tSelectMux, tPingPong, tParallelFib, tMethodGoroutines, tSemaphore, tSelectSharedSend,
 	tGoBinArgs, tRWMutexMap, tOnceAtomic, tNestedSpawn, tSelectDefaultPoll, tGoBinNoReassign, tMethodViaClosure, tGoFuncVar, tClosureSlice,
-	tPrivateRecv, tPrivateRecv2, tPrivateSend, tPrivateRange, tPrivateSelect, tPrivateSelectForms,
+	tPrivateRecv, tPrivateRecv2, tPrivateSend, tPrivateRange, tPrivateSelect, tPrivateSelectForms, tPrivateRecvForms,
 }
 
 func tPipeline(r *rand.Rand) Tmpl {
@@ -1200,6 +1200,92 @@ func tPrivateSelectForms(r *rand.Rand) Tmpl {
 			}
 			out <- v
 		}
+	}`)
+}
+
+// the receive forms of F08-7, F08-8, F08-9 (all repaired), executed by several goroutines on private channels:
+// non-identifier and blank destinations of single- and two-value receives, as plain statements and as select
+// clauses, `return <-c`, and a receive into a variable whose address was taken
+func tPrivateRecvForms(r *rand.Rand) Tmpl {
+	return privateKind(r, "recv-forms", `	type dst struct {
+		v  int
+		ok bool
+	}
+	arr := []int{0, 0}
+	oks := []bool{false, false}
+	st := dst{}
+	ps := &st
+	m := map[string]int{}
+	ins := []chan int{in}
+	take := func(c chan int) int { return <-c }
+	x, ok := 0, false
+	for i := 0; i < n; i++ {
+		verif.Mark(w)
+		v, known := 0, true
+		switch i % 15 {
+		case 0:
+			arr[1] = <-in
+			v = arr[1]
+		case 1:
+			st.v = <-in
+			v = st.v
+		case 2:
+			ps.v = <-in
+			v = st.v
+		case 3:
+			arr[0], oks[0] = <-in
+			v = arr[0]
+		case 4:
+			st.v, st.ok = <-in
+			v = st.v
+		case 5:
+			x, _ = <-in
+			v = x
+		case 6:
+			_, ok = <-in
+			known = !ok
+		case 7:
+			select {
+			case arr[1], oks[1] = <-in:
+			}
+			v = arr[1]
+		case 8:
+			select {
+			case st.v, st.ok = <-ins[0]:
+				v = st.v
+			}
+		case 9:
+			select {
+			case x, _ = <-in:
+			}
+			v = x
+		case 10:
+			select {
+			case _, ok = <-in:
+				known = !ok
+			}
+		case 11:
+			v = take(in)
+		case 12:
+			p := &x
+			x = <-in
+			v = *p
+		case 13:
+			m["k"] = <-in
+			v = m["k"]
+		default:
+			select {
+			case arr[1] = <-ins[0]:
+			}
+			v = arr[1]
+		}
+		if !known {
+			// the value was received into the blank identifier
+			got++
+			out <- w*1000000 + 999999
+			continue
+		}
+`+countOwn+`		out <- v
 	}`)
 }
 
